@@ -223,6 +223,19 @@ def case_slice(lines, lno, start_events=("Case",)):
         i -= 1
     return lines[i:lno]
 
+def fail_rec(ctx, lines, fl, extra=None, start_events=("Case",)):
+    """Build the replay record of one FAIL line and file it under ctx.fails (own property or 'ANY') / ctx.other."""
+    ev = json.loads(lines[fl["line"] - 1])
+    if ev.get("e") == "Crash":
+        case = ev["case"]
+    else:
+        case = json.loads(case_slice(lines, fl["line"], start_events)[0])
+    prop = ctx.prop if fl["prop"] == "ANY" else fl["prop"]
+    rec = {"prop": prop, "clause": fl["clause"], "detail": fl["detail"], "case": case, "event": ev}
+    rec.update(extra or {})
+    (ctx.fails if prop == ctx.prop else ctx.other).append(rec)
+    return rec
+
 def collect_fails(ctx, results, start_events=("Case",), make_replay=None):
     """Turn FAIL lines of validated traces into ctx.fails (own property) / ctx.other."""
     for f, res in results:
